@@ -8,6 +8,7 @@ import SigmaVerif.Lemmas.C06Alias
 import SigmaVerif.Lemmas.C06SemDet
 import SigmaVerif.Lemmas.C06Scalar
 import SigmaVerif.Lemmas.C06Split
+import SigmaVerif.Lemmas.C06Merge
 /-!
 # C06 — serialising a rule and loading it again preserves its meaning
 
@@ -20,7 +21,19 @@ What is proved, for every document (no bound on sizes or nesting):
 * an item, a detection, a detection section that loaded is written, and what is written loads to the
   *same object* (hence is written identically again, and means the same to any consumer of the object);
 * the exact classes for which this fails in the code are excluded by hypotheses and recorded as witness
+<<<<<<< lean/SigmaVerif/Props/C06.lean
+  theorems (findings D3, D62–D65 of the code; D67, D73 for transformed rules);
+* the key-merging loop: fusing non-negated items preserves the meaning, a `neq` collision is refused, and the
+  `neq` + `all` collision still changes the meaning (`merge_all_preserves_meaning`,
+  `merge_all_lists_preserves_meaning`, `neq_collision_refused`, `neq_merge_would_change_meaning`,
+  `neq_all_merge_changes_meaning`);
+=======
   theorems (findings D3, D62–D65 of the code; D67 for transformed rules);
+* the key-merging loop: fusing non-negated items preserves the meaning, every collision of a key carrying `neq` is refused
+  because fusing would change the meaning (`merge_all_preserves_meaning`,
+  `merge_all_lists_preserves_meaning`, `neq_collision_refused`, `neq_merge_would_change_meaning`,
+  `neq_all_collision_refused`, `neq_all_merge_would_change_meaning`);
+>>>>>>> /tmp/int_theirs
 * value transformations and one-to-many field mappings are faithful or refuse (`resync_faithful`,
   `resync_nonplain_refuses`, `split_faithful`, `split_replaced_refuses`, `and_of_detections_refused`:
   the former findings D60, D61, D68, fixed in the code);
@@ -209,6 +222,89 @@ theorem scalar_list_roundtrip (cx : Rule.Ctx) (es : List PDef) (hnv : es.all PDe
 example : ([PDef.list [.val (.str ['a'])], .map [([], .one (.str ['b']))]]).all PDef.isVal = false ∧
     ([PDef.list [.val (.str ['a'])], .map [([], .one (.str ['b']))]]).all scalarish = true ∧
     GoodL [PDef.list [.val (.str ['a'])], .map [([], .one (.str ['b']))]] = true := by decide
+
+/-! ### colliding keys (many-to-one field mapping): the merging loop -/
+
+/-- a context for the concrete witnesses -/
+def cx0 : Rule.Ctx := { env := env0, nativeCidr := true }
+
+/-- **Fusing two non-negated items under one key preserves the meaning.**  Two single-valued items with
+the same field and modifiers (what `k: x` and `k: y` are after the mapping) mean the AND of the two value
+conditions, and so does the fused item `k|all: [x, y]` — for every modifier chain; error outcomes agree. -/
+theorem merge_all_preserves_meaning (cx : Rule.Ctx) (f : Option Str) (ms ms' : List Str) (w1 w2 : Val)
+    (o1 o2 o : Option (List Val)) :
+    detObjBE cx (.node [.item ⟨f, ms, [w1], false, false, o1⟩, .item ⟨f, ms, [w2], false, false, o2⟩] false)
+      = objBE cx ⟨f, ms', [w1, w2], true, false, o⟩ :=
+  fuse_scalars_meaning cx f ms ms' w1 w2 o1 o2 o
+
+/-- the document level of it: after `a → c, b → c` the items `c: x`, `c: y` are written `c|all: [x, y]`,
+which loads as the fused item -/
+example :
+    toPlainDet (.node [.item ⟨some ['c'], [], [.str false [.lit 'x']], false, false, some [.str false [.lit 'x']]⟩,
+                       .item ⟨some ['c'], [], [.str false [.lit 'y']], false, false, some [.str false [.lit 'y']]⟩] false)
+      = .ok (.map [("c|all".toList, .many [.str ['x'], .str ['y']])]) ∧
+    fromDef env0 (.map [("c|all".toList, .many [.str ['x'], .str ['y']])])
+      = .ok (.node [.item ⟨some ['c'], ["all".toList], [.str false [.lit 'x'], .str false [.lit 'y']], true, false,
+                           some [.str false [.lit 'x'], .str false [.lit 'y']]⟩] false) := ⟨rfl, rfl⟩
+
+/-- **Concatenating the value lists of two non-negated `…|all` items preserves the meaning** (same truth
+value under every assignment of the atoms). -/
+theorem merge_all_lists_preserves_meaning (cx : Rule.Ctx) (f : Option Str) (ms : List Str) (ws1 ws2 : List Val)
+    (o1 o2 o : Option (List Val)) (es1 es2 : List Rule.BE) (h1 : ws1 ≠ []) (h2 : ws2 ≠ [])
+    (he1 : Rule.mapME (Rule.valBE' cx f) ws1 = .ok es1) (he2 : Rule.mapME (Rule.valBE' cx f) ws2 = .ok es2) :
+    ∃ a b, detObjBE cx (.node [.item ⟨f, ms, ws1, true, false, o1⟩, .item ⟨f, ms, ws2, true, false, o2⟩] false) = .ok a ∧
+      objBE cx ⟨f, ms, ws1 ++ ws2, true, false, o⟩ = .ok b ∧ ∀ ρ, a.eval ρ = b.eval ρ :=
+  fuse_all_meaning cx f ms ws1 ws2 o1 o2 o es1 es2 h1 h2 he1 he2
+
+/-- **A collision of two negated single-valued items is refused** (fix d3c92a0 of the code) … -/
+theorem neq_collision_refused :
+    toPlainDet (.node [.item ⟨some ['c'], ["neq".toList], [.str false [.lit 'x']], false, true, some [.str false [.lit 'x']]⟩,
+                       .item ⟨some ['c'], ["neq".toList], [.str false [.lit 'y']], false, true, some [.str false [.lit 'y']]⟩] false)
+      = .error .refused := rfl
+
+/-- … because fusing them as the non-negated ones are fused (the behaviour before the fix: `c|neq|all: [x, y]`)
+would change the meaning: NOT (c=x AND c=y) instead of NOT c=x AND NOT c=y; the assignment "c=x holds,
+c=y does not" tells them apart. -/
+theorem neq_merge_would_change_meaning :
+    ∃ a b, detObjBE cx0 (.node [.item ⟨some ['c'], ["neq".toList], [.str false [.lit 'x']], false, true, none⟩,
+                               .item ⟨some ['c'], ["neq".toList], [.str false [.lit 'y']], false, true, none⟩] false) = .ok a ∧
+      objBE cx0 ⟨some ['c'], ["neq".toList, "all".toList], [.str false [.lit 'x'], .str false [.lit 'y']], true, true, none⟩ = .ok b ∧
+      a.eval (fun t => t == .str (some ['c']) false [.lit 'x']) = false ∧
+      b.eval (fun t => t == .str (some ['c']) false [.lit 'x']) = true := ⟨_, _, rfl, rfl, rfl, rfl⟩
+
+<<<<<<< lean/SigmaVerif/Props/C06.lean
+/-- **Finding D73**: the refusal does not cover keys that already carry `all`: two `c|neq|all` items get
+their value lists concatenated (`"|all" in k` branch), the reload is NOT (c=x AND c=y) instead of
+NOT c=x AND NOT c=y. -/
+theorem neq_all_merge_changes_meaning :
+    ∃ j a b,
+      toPlainDet (.node [.item ⟨some ['c'], ["neq".toList, "all".toList], [.str false [.lit 'x']], true, true, some [.str false [.lit 'x']]⟩,
+                         .item ⟨some ['c'], ["neq".toList, "all".toList], [.str false [.lit 'y']], true, true, some [.str false [.lit 'y']]⟩] false)
+        = .ok (.map [("c|neq|all".toList, .many [.str ['x'], .str ['y']])]) ∧
+=======
+/-- **A collision of two negated `…|all` items is refused as well** (fix aeb74f2 of the code: the test for
+`neq` sits at the key collision itself, before the `"|all" in k` branch) … -/
+theorem neq_all_collision_refused :
+    toPlainDet (.node [.item ⟨some ['c'], ["neq".toList, "all".toList], [.str false [.lit 'x']], true, true, some [.str false [.lit 'x']]⟩,
+                       .item ⟨some ['c'], ["neq".toList, "all".toList], [.str false [.lit 'y']], true, true, some [.str false [.lit 'y']]⟩] false)
+      = .error .refused := rfl
+
+/-- … because concatenating their value lists (the behaviour before the fix, former finding D73: written
+`c|neq|all: [x, y]`) would change the meaning in the same way: the item that document loads to negates the
+conjunction of all values. -/
+theorem neq_all_merge_would_change_meaning :
+    ∃ j a b,
+>>>>>>> /tmp/int_theirs
+      fromDef env0 (.map [("c|neq|all".toList, .many [.str ['x'], .str ['y']])]) = .ok (.node [.item j] false) ∧
+      detObjBE cx0 (.node [.item ⟨some ['c'], ["neq".toList, "all".toList], [.str false [.lit 'x']], true, true, none⟩,
+                           .item ⟨some ['c'], ["neq".toList, "all".toList], [.str false [.lit 'y']], true, true, none⟩] false) = .ok a ∧
+      detObjBE cx0 (.node [.item j] false) = .ok b ∧
+      a.eval (fun t => t == .str (some ['c']) false [.lit 'x']) = false ∧
+<<<<<<< lean/SigmaVerif/Props/C06.lean
+      b.eval (fun t => t == .str (some ['c']) false [.lit 'x']) = true := ⟨_, _, _, rfl, rfl, rfl, rfl, rfl, rfl⟩
+=======
+      b.eval (fun t => t == .str (some ['c']) false [.lit 'x']) = true := ⟨_, _, _, rfl, rfl, rfl, rfl, rfl⟩
+>>>>>>> /tmp/int_theirs
 
 /-! ## 3. items changed by a pipeline -/
 
